@@ -43,6 +43,8 @@ var anchorPatterns = map[string][]string{
 	"C04": {`^model\.\(\*DecisionMaker\)\.(AlternativesToConsider|NotConsideredAlternatives|prepareParams)$`, `^model\.(FetchAlternatives|FetchAlternative)$`, `^type:model\.(EvaluationSingleValue|AlternativeResult|AlternativesRankEntry)$`, `^model\.\(\*AlternativeResults\)\.(Len|Swap)$`,
 
 		`^model\.\(\*AlternativeResults\)\.(Ranking|Less)$`, `^model\.\(\*AlternativeResult\)\.(positionInRanking|rounded|Value)$`, `^model\.Rank$`, `^model\.ValueAlternativeResult$`,
+		// listing-order independence also of what a bias asks the utility methods about the criteria (defect 37)
+		`^(weighted_sum|owa|choquet)\.\(\*\w+Bias[Ll][Ii]stener\)\.RankCriteriaAscending$`, `^model\.(PrepareCumulatedWeightsMap|SortAlternativesByName)$`, `^choquet\.decomposeWeights$`,
 	},
 	"C05": {`^type:electreIII\.`, `^global:electreIII\.`, `^type:utils\.LinearFunctionParameters$`,
 		`^electreIII\.`, `^utils\.\(\*LinearFunctionParameters\)\.Evaluate$`, `^utils\.(IsPositive|ContainsInts)$`,
@@ -79,6 +81,7 @@ var anchorPatterns = map[string][]string{
 		`^criteria_omission\.omitCriteria$`, `^criteria_omission\.\(\*CriteriaOmission\)\.Apply$`,
 		`^criteria_concealment\.\(\*CriteriaConcealment\)\.(Apply|addCriterion)$`, `^criteria_concealment\.(generateCriterionValuesForAlternatives|assignNewCriterionToAlternatives)$`,
 		`^criteria_mixing\.\(\*CriteriaMixing\)\.Apply$`, `^criteria_mixing\.(updateDMParams|updateAlternatives|prepareMixedCriterion)$`,
+		`^preference_reversal\.\(\*PreferenceReversal\)\.Apply$`, `^anchoring\.\(\*Anchoring\)\.Apply$`,
 	},
 	"C10": {`^global:`,
 
@@ -104,7 +107,9 @@ var anchorPatterns = map[string][]string{
 	"C14": {`^type:satisfaction_levels\.`, `^global:main\.(funcs|biasListeners)$`,
 		`^satisfaction_levels\.\(\*(IdealCoefficientSatisfactionLevels|IncreasingCoefficientManager|DecreasingCoefficientManager|IdealCoefficientSatisfactionLevelsSource)\)\.`,
 		`^satisfaction_levels\.Find$`, `^model\.CriteriaValuesRange$`, `^utils\.\(\*ValueRange\)\.Diff$`, `^utils\.NewValueRange$`, `^model\.\(\*Criterion\)\.Multiplier$`,
-		`^model\.\(\*DecisionMakingParams\)\.AllAlternatives$`, `^global:satisfaction_levels\.`, `^global:main\.(increasing|decreasing)`},
+		`^model\.\(\*DecisionMakingParams\)\.AllAlternatives$`, `^global:satisfaction_levels\.`, `^global:main\.(increasing|decreasing)`,
+		// from which state the two heuristics initialise the series they walk
+		`^(aspect_elimination|satisfaction)\.\(\*\w+\)\.(ParseParams|Evaluate)$`},
 	"C15": {`^global:main\.(criteriaOrdering|biases|biasListeners)$`, `^type:(criteria_omission|criteria_splitting|criteria_ordering)\.`,
 		`^criteria_omission\.`, `^criteria_splitting\.`, `^criteria_ordering\.`, `^model\.\(\*Criteria\)\.(SortByWeights|Weight|FindWeight)$`,
 		`\.\(\*\w+Bias[Ll][Ii]stener\)\.(RankCriteriaAscending|OnCriteriaRemoved)$`, `^model\.(PrepareCumulatedWeightsMap|WeightIdentity|PreserveCriteriaForAlternatives)$`,
@@ -119,7 +124,7 @@ var anchorPatterns = map[string][]string{
 		`^model\.\(\*AlternativeWithCriteria\)\.(WithCriteriaValues|CriterionRawValue)$`, `^model\.\(\*DecisionMakingParams\)\.AllAlternatives$`},
 	"C18": {`^type:(criteria_concealment|criteria_mixing|reference_criterion)\.`, `^global:main\.(biases|referenceCriterionManager)$`, `^global:model\.`,
 		`^criteria_concealment\.`, `^criteria_mixing\.`, `^reference_criterion\.`, `^model\.(ValuesRangeWithGroundZero|RescaleCriterion|scaleCriterion|GetScaleRatio|GetNormalScaleRatio|NewCriterionValue|SingleWeight|AddCriterionToAlternatives|SortAlternativesByName|UpdateAlternatives|CriteriaValuesRange)$`,
-		`^criteria_bounding\.`, `^utils\.NewValueInRangeGenerator$`, `\.\(\*\w+Bias[Ll][Ii]stener\)\.(OnCriterionAdded|Merge)$`, `^satisfaction_levels\.\(\*\w+Source\)\.(OnCriterionAdded|Merge)$`,
+		`^criteria_bounding\.`, `^utils\.NewValueInRangeGenerator$`, `\.\(\*\w+Bias[Ll][Ii]stener\)\.(OnCriterionAdded|Merge|OnCriteriaRemoved)$`, `^satisfaction_levels\.\(\*\w+Source\)\.(OnCriterionAdded|Merge)$`,
 		`^satisfaction_levels\.(assignNewThresholds|mapThresholdsToEntries|sortThresholds)$`, `^satisfaction_levels\.\(\*ThresholdSatisfactionLevels\)\.merge$`,
 		`^model\.\(\*Criteria\)\.(NotUsedName|countWithPrefix|Add)$`, `^model\.firstFreeName$`, `^model\.\(\*AlternativeWithCriteria\)\.WithCriterion$`,
 		`^utils\.\(\*ValueRange\)\.(ScaleEqually|Diff)$`, `^utils\.(IsProbability|IsInBounds)$`, `^owa\.(additionAsOwaParams|addCriteria)$`, `^owa\.\(\*owaParams\)\.(merge|find)$`,
